@@ -95,13 +95,14 @@ static void do_version_login(char *args)
 	size_t n, hl, rawlen;
 	char *sp, *rawtok;
 	uint32_t r;
-	int uid, i, qtype, len;
+	int uid, i, qtype, len, twin;
 
 	if (!srv_ready) {
 		created_users = init_users(inet_addr("10.9.0.1"), 27);
 		srv_ready = 1;
 	}
 	topdomain = srv_topdomain;
+	check_ip = 1;	/* the default of iodined (no -c) */
 	my_ip = inet_addr("10.9.0.1");
 	my_mtu = 1130;
 	netmask = 27;
@@ -114,6 +115,8 @@ static void do_version_login(char *args)
 	r = (uint32_t)strtoul(sp + 1, &sp, 10);
 	uid = (int)strtol(sp, &sp, 10);
 	while (*sp == ' ') sp++;
+	twin = (*sp == 'n' || *sp == 't');
+	if (twin) *sp = (char)toupper((unsigned char)*sp);
 	if ((*sp != 'N' && *sp != 'T') || uid < 0 || uid >= created_users) { printf("BADCASE\n"); return; }
 	qtype = *sp == 'T' ? T_TXT : T_NULL;
 	sp++;
@@ -158,6 +161,16 @@ static void do_version_login(char *args)
 	printf("reply=");
 	puthex(out, len);
 	printf(" seed=%u rand_calls=%d", (unsigned int)users[uid].seed, rand_calls);
+	if (twin) {
+		/* a second version request from the same address before the login (other CMC bytes, other DNS id) */
+		unsigned char out2[256];
+		msg[4] = 0x77;
+		msg[5] = 0x01;
+		rand_scripted = 1;
+		rand_value = (int)(r ^ 0x5bd1e995u);
+		srv_query('v', msg, 6, qtype, 0x1003, out2, sizeof(out2));
+		rand_scripted = 0;
+	}
 	/* client.c send_login: userid, 16 hash bytes, 2 CMC bytes */
 	msg[0] = (unsigned char)uid;
 	memcpy(msg + 1, hash, 16);
